@@ -414,7 +414,8 @@ async def part_workload(flavor, case, J):
                 elif isinstance(exc, httpcore.LocalProtocolError) and rec["beh"] not in ("bad-upload", "bad-head"):
                     # LocalProtocolError says "the caller sent something illegal": the class must match the cause
                     cnt["oracle_class"] += 1
-                    J.v(f"wrong-class:workload:{spec['proto']}:LocalProtocolError", f"{rec['token']} ({rec['beh']}), a legal request, "
+                    mech = ":send-headers-on-closed-h2-state" if "SEND_HEADERS in state ConnectionState.CLOSED" in str(exc) else ""
+                    J.v(f"wrong-class:workload:{spec['proto']}:LocalProtocolError{mech}", f"{rec['token']} ({rec['beh']}), a legal request, "
                         f"failed with {exc!r}", {"spec": spec, "token": rec["token"]})
         try:
             await wl.api.close_pool()
